@@ -148,8 +148,28 @@ class Layouts:
         if c.nsyn in ("nom_derive::Parse::parse_be", "nom_derive::Parse::parse", "nom_derive::Parse::parse_le") and c.syn_args and c.syn_args[0].startswith("std::vec::Vec<"):
             return ("vec", c.syn_args[0][len("std::vec::Vec<"):-1], c.nsyn.rsplit("::", 1)[1])
         if c.local:
+            inl = self.fn_as_term(c)
+            if inl is not None:
+                return inl
             return ("struct", self.self_adt(c), c.path, extra)
         return ("fn", c)
+
+    def fn_as_term(self, c, depth=0):
+        """A private crate function that is just one parser application on its input
+        (`fn parse_ipv4_addr(i) -> IResult<..> { map(be_u32, Ipv4Addr::from)(i) }`) is replaced by that term."""
+        b = self.prog.body(c.path)
+        if b is None or b.arg_count != 1 or b.nblocks > 12 or b.parent_impl or depth > 3:
+            return None
+        ret = peel(self.an.local(b, 0))
+        if ret[0] != "call":
+            return None
+        st = self.step_of_call(ret)
+        if st is None:
+            return None
+        term, cur = st
+        if peel(cur) != ("arg", 1):
+            return None
+        return term
 
     def self_adt(self, c):
         b = self.prog.body(c.path)
